@@ -9,14 +9,19 @@ EXTENDS FuncCall, Json, Randomization
 Fam == Env("VFAM", "one")
 NSample == EnvInt("VN", 5000)
 PTypes == {TStr, TList(TStr), TDyn}
+\* a structured constraint: a nested object matched through placeholders, followed by a plain sibling attribute
+NestT == TObj([a |-> TObj([x |-> TDyn, y |-> TDyn]), b |-> TStr])
+NestArgT(bt) == TObj([a |-> TObj([x |-> TNum, y |-> TBool]), b |-> bt])
+NestArg(bt, bv) == MapV(NestArgT(bt), [a |-> MapV(TObj([x |-> TNum, y |-> TBool]), [x |-> NumV(4), y |-> BoolV(TRUE)]), b |-> bv])
 Params == [ty : PTypes, an : BOOLEAN, au : BOOLEAN, ad : BOOLEAN, am : BOOLEAN]
+          \cup {[ty |-> NestT, an |-> f, au |-> f, ad |-> f, am |-> f] : f \in BOOLEAN}
 \* argument descriptors, made concrete relative to the parameter type
 Descs == {"conf", "nonconf", "null", "unk", "dyn", "dynnull", "mtop", "mdeep", "munk", "mnull", "mdeepunk"}
-Base(t) == IF t.k = "list" THEN SeqV(TList(TStr), <<StrV(<<"a">>), StrV(<<"b">>)>>) ELSE StrV(<<"a">>)
-BT(t) == IF t.k = "list" THEN TList(TStr) ELSE TStr
+Base(t) == IF t.k = "object" THEN NestArg(TStr, StrV(<<"a">>)) ELSE IF t.k = "list" THEN SeqV(TList(TStr), <<StrV(<<"a">>), StrV(<<"b">>)>>) ELSE StrV(<<"a">>)
+BT(t) == IF t.k = "object" THEN NestArgT(TStr) ELSE IF t.k = "list" THEN TList(TStr) ELSE TStr
 ArgVal(d, t) ==
   CASE d = "conf" -> Base(t)
-    [] d = "nonconf" -> IF t.k = "list" THEN StrV(<<"a">>) ELSE IF t.k = "string" THEN NumV(4) ELSE SeqV(TTup(<<>>), <<>>)
+    [] d = "nonconf" -> IF t.k = "object" THEN NestArg(TNum, NumV(4)) ELSE IF t.k = "list" THEN StrV(<<"a">>) ELSE IF t.k = "string" THEN NumV(4) ELSE SeqV(TTup(<<>>), <<>>)
     [] d = "null" -> Null(BT(t))
     [] d = "unk" -> Unk(BT(t), NoRf)
     [] d = "dyn" -> DynVal
